@@ -56,6 +56,8 @@ type rcfg struct {
 	coord      string // ok | slowjoin | joinerr | rebalance | slowhb
 	nmsgs      int    // messages in the log
 	syncCommit bool
+	coordReal  bool   // group paths over real connections to the protocol-level broker (gbroker) instead of the mock coordinator
+	badCodec   bool   // the second message of the log carries an unknown compression codec
 	faultAt    string // coordinator method at which a fault is injected ("" = none)
 	faultNth   int    // on its n-th call (0 = every call)
 	faultKind  int    // kafka error code, or -1 = the connection breaks / the request times out
@@ -66,6 +68,7 @@ type rscenario struct {
 	rec     *recorder
 	open    int32 // open connections (broker + coordinator)
 	br      *Broker
+	gb      *gbroker
 	r       *kafka.Reader
 	cg      *kafka.ConsumerGroup
 	nextC   int
@@ -92,7 +95,13 @@ func (s *rscenario) dial(ctx context.Context, network, addr string) (net.Conn, e
 		}
 		return nil, errors.New("fake: connection refused")
 	}
-	c, id := s.br.Dial()
+	var c net.Conn
+	var id int
+	if s.gb != nil {
+		c, id = s.gb.dial()
+	} else {
+		c, id = s.br.Dial()
+	}
 	atomic.AddInt32(&s.open, 1)
 	s.rec.add("bo/%d", id)
 	return &countedConn{Conn: c, id: id, sc: s}, nil
@@ -252,7 +261,11 @@ func newRScenario(cfg rcfg) *rscenario {
 			// serve everything from the requested offset
 			var part []byte
 			for i := int(q.Offset); i < cfg.nmsgs; i++ {
-				part = append(part, encodeMsg(int64(i), 1000+int64(i), nil, []byte(strconv.Itoa(i)))...)
+				attrs := byte(0)
+				if cfg.badCodec && i >= 1 {
+					attrs = 5 // no codec is registered under this id
+				}
+				part = append(part, encodeMsgAttrs(int64(i), 1000+int64(i), nil, []byte(strconv.Itoa(i)), attrs)...)
 			}
 			return FetchResp{Hwm: int64(cfg.nmsgs), Set: part, Cut: -1}
 		},
@@ -268,7 +281,11 @@ func newRScenario(cfg rcfg) *rscenario {
 			MinBytes: 1, MaxBytes: 1 << 20, MaxWait: 40 * time.Millisecond, ReadBatchTimeout: 300 * time.Millisecond,
 			ReadBackoffMin: time.Millisecond, ReadBackoffMax: 3 * time.Millisecond, MaxAttempts: 2, ReadLagInterval: -1})
 	case "group":
-		kafka.VerifSetGroupHandler(s.coord)
+		if cfg.coordReal {
+			s.gb = &gbroker{s: s}
+		} else {
+			kafka.VerifSetGroupHandler(s.coord)
+		}
 		ci := 20 * time.Millisecond
 		if cfg.syncCommit {
 			ci = 0
@@ -280,10 +297,14 @@ func newRScenario(cfg rcfg) *rscenario {
 			JoinGroupBackoff: 10 * time.Millisecond, CommitInterval: ci, StartOffset: kafka.FirstOffset})
 		kafka.VerifSetGroupHandler(nil)
 	case "cg":
-		kafka.VerifSetGroupHandler(s.coord)
+		if cfg.coordReal {
+			s.gb = &gbroker{s: s}
+		} else {
+			kafka.VerifSetGroupHandler(s.coord)
+		}
 		cg, err := kafka.NewConsumerGroup(kafka.ConsumerGroupConfig{ID: "g", Brokers: []string{"fake:9092"}, Topics: []string{"t"}, Dialer: dialer,
 			HeartbeatInterval: 15 * time.Millisecond, SessionTimeout: 300 * time.Millisecond, RebalanceTimeout: 300 * time.Millisecond,
-			JoinGroupBackoff: 10 * time.Millisecond})
+			JoinGroupBackoff: 10 * time.Millisecond, Timeout: 150 * time.Millisecond})
 		kafka.VerifSetGroupHandler(nil)
 		if err != nil {
 			panic(err)
@@ -353,10 +374,25 @@ func (s *rscenario) call(kind string) int {
 		}
 		if res == "" {
 			res = rclass(err)
+			if res == "eof" && kind != "fetch" && kind != "read" {
+				res = "err" // a broken coordinator connection surfaces io.EOF through Next / CommitMessages
+			}
+			if res == "eof" && !s.closingFlag() {
+				// Close has not been called: the io.EOF of a broken coordinator connection, handed through r.runError
+				// (the fetch path rewrites io.EOF to io.ErrUnexpectedEOF, the group-loop path does not) — an error, not
+				// the "reader closed" answer
+				res = "err"
+			}
 		}
 		s.rec.add("rr/%d/%s", c, res)
 	}()
 	return c
+}
+
+func (s *rscenario) closingFlag() bool {
+	s.mu.Lock()
+	defer s.mu.Unlock()
+	return s.closing
 }
 
 func (s *rscenario) wait(c int, d time.Duration) bool {
@@ -374,10 +410,13 @@ func (s *rscenario) cancelCall(c int) {
 }
 
 func (s *rscenario) closeBegin() {
+	s.mu.Lock()
 	if s.closing {
+		s.mu.Unlock()
 		return
 	}
 	s.closing = true
+	s.mu.Unlock()
 	s.closed = make(chan struct{})
 	go func() {
 		s.rec.add("xb")
@@ -505,6 +544,16 @@ func readerScenario(kind int, r *rand.Rand) (string, string) {
 		c4 := s.call("read")
 		s.wait(c4, watchdog())
 		return s.finish(base, t0)
+	case 12: // plain reader: a message with an unknown compression codec (fatal for the fetcher's read), then Close
+		s := newRScenario(rcfg{mode: "plain", broker: "ok", nmsgs: 3, badCodec: true})
+		c := s.call("fetch")
+		s.wait(c, watchdog())
+		c2 := s.call("fetch")
+		s.wait(c2, watchdog())
+		time.Sleep(time.Duration(5+r.Intn(20)) * time.Millisecond)
+		s.closeBegin()
+		<-waitOr(s.closed)
+		return s.finish(base, t0)
 	case 3: // plain reader, messages delivered and some still buffered when Close runs
 		s := newRScenario(rcfg{mode: "plain", broker: "ok", nmsgs: 3 + r.Intn(3)})
 		c := s.call("fetch")
@@ -516,6 +565,45 @@ func readerScenario(kind int, r *rand.Rand) (string, string) {
 			ci := s.call("fetch")
 			s.wait(ci, watchdog())
 		}
+		return s.finish(base, t0)
+	case 13: // group reader over real coordinator connections: a fault (error code or broken connection) at any step, Close
+		cfg := rcfg{mode: "group", broker: "ok", coord: "ok", coordReal: true, syncCommit: r.Intn(2) == 0}
+		if r.Intn(4) > 0 {
+			cfg.faultAt, cfg.faultNth, cfg.faultKind = pickStepReal(r), r.Intn(3), []int{25, 15, 16, 27, -1, -1}[r.Intn(6)]
+			if cfg.faultAt == "leaveGroup" {
+				cfg.faultNth = r.Intn(2) // there is one LeaveGroup per scenario
+			}
+		}
+		s := newRScenario(cfg)
+		c := s.call("fetch")
+		s.waitTok("gh/", 150*time.Millisecond)
+		jitter()
+		s.closeBegin()
+		<-waitOr(s.closed)
+		s.wait(c, watchdog())
+		c3 := s.call("fetch")
+		s.wait(c3, watchdog())
+		return s.finish(base, t0)
+	case 14: // ConsumerGroup over real connections, Timeout 150 ms: also a coordinator that stops answering at some step
+		cfg := rcfg{mode: "cg", coord: "ok", coordReal: true}
+		if r.Intn(4) > 0 {
+			cfg.faultAt, cfg.faultNth, cfg.faultKind = pickStepReal(r), r.Intn(3), []int{25, 15, 27, -1, -2, -2}[r.Intn(6)]
+			if cfg.faultAt == "leaveGroup" {
+				cfg.faultNth = r.Intn(2)
+			}
+			if cfg.faultKind == -2 && (cfg.faultAt == "joinGroup" || cfg.faultAt == "syncGroup") {
+				cfg.faultKind = -1 // their deadline adds the rebalance / session timeout: keep the scenario short
+			}
+		}
+		s := newRScenario(cfg)
+		c := s.call("next")
+		s.wait(c, 200*time.Millisecond)
+		jitter()
+		s.closeBegin()
+		<-waitOr(s.closed)
+		s.wait(c, watchdog())
+		c3 := s.call("next")
+		s.wait(c3, watchdog())
 		return s.finish(base, t0)
 	case 4, 5, 6, 7, 8, 10, 11: // group reader: running generation / slow join / join errors / rebalance / slow coordinator / faults
 		cfg := rcfg{mode: "group", broker: "ok", syncCommit: r.Intn(2) == 0, nmsgs: r.Intn(2) * 2}
@@ -609,6 +697,11 @@ func pickStep(r *rand.Rand) string {
 	return []string{"connect", "findCoordinator", "joinGroup", "syncGroup", "offsetFetch", "heartbeat", "offsetCommit", "readPartitions"}[r.Intn(8)]
 }
 
+// pickStepReal: a coordinator request (real connections: the dial itself is not scripted)
+func pickStepReal(r *rand.Rand) string {
+	return []string{"findCoordinator", "joinGroup", "syncGroup", "offsetFetch", "heartbeat", "leaveGroup", "leaveGroup"}[r.Intn(7)]
+}
+
 func waitOr(ch chan struct{}) chan struct{} {
 	out := make(chan struct{})
 	go func() {
@@ -628,15 +721,98 @@ func readerPart(seed int64) {
 	}
 	n := 0
 	for rep := 0; rep < reps; rep++ {
-		for kind := 0; kind < 12; kind++ {
+		for kind := 0; kind < 15; kind++ {
 			n++
 			if tooManyStuck() {
 				return
 			}
-			if only("rclose", n) {
+			if only("rclose", n) || only("ftrace", n) {
+				kafka.VerifStart()
 				op, impl := readerScenario(kind, scRand(seed, 2, n))
+				evs := kafka.VerifStop()
 				emitSc(n, op, impl)
+				if strings.Contains(impl, "close=ret") {
+					fop, fimpl := fetcherTrace(evs)
+					emitSc(n, fop, fimpl)
+				}
 			}
 		}
 	}
+}
+
+// fetcherTrace converts the RL.* hook events of (*reader).run (placed by the reader builder) into the event alphabet of
+// Model/FetcherLife.lean, one token per event, tagged with the fetcher: T<f>:<attempt> top, C<f> cancel, I<f>:<1|0> init,
+// J<f> iter, R<f>:<class> read, O<f>:<1|0> offsets (after an out-of-range read only), M<f> msg, E<f> sendErr.
+func fetcherTrace(evs []kafka.VerifEvent) (string, string) {
+	ids := map[string]int{}
+	id := func(a string) int {
+		if _, ok := ids[a]; !ok {
+			ids[a] = len(ids) + 1
+		}
+		return ids[a]
+	}
+	lastRead := map[int]string{}
+	exited := map[int]bool{}
+	var toks []string
+	for _, e := range evs {
+		if !strings.HasPrefix(e.Kind, "RL.") || len(e.Args) == 0 {
+			continue
+		}
+		f := id(e.Args[0])
+		switch e.Kind {
+		case "RL.Top":
+			toks = append(toks, fmt.Sprintf("T%d:%s", f, e.Args[2]))
+			lastRead[f] = ""
+		case "RL.Cancel":
+			toks = append(toks, fmt.Sprintf("C%d", f))
+			exited[f] = true
+		case "RL.Init":
+			ok := 0
+			if e.Args[2] == "nil" {
+				ok = 1
+			}
+			toks = append(toks, fmt.Sprintf("I%d:%d", f, ok))
+		case "RL.Iter":
+			toks = append(toks, fmt.Sprintf("J%d", f))
+			lastRead[f] = ""
+		case "RL.Read":
+			cls := "close"
+			switch e.Args[2] {
+			case "nil", "eof", "kafka7":
+				cls = "cont"
+			case "noprogress", "kafka3", "kafka6", "other":
+				cls = "close"
+			case "unknowncodec":
+				cls = "codec"
+			case "kafka1":
+				cls = "oor"
+			case "canceled":
+				cls = "canceled"
+				exited[f] = true
+			default: // another Kafka error: reported to the application, the loop goes on
+				cls = "cont"
+			}
+			lastRead[f] = cls
+			toks = append(toks, fmt.Sprintf("R%d:%s", f, cls))
+		case "RL.Offsets":
+			if lastRead[f] != "oor" {
+				continue // readOffsets inside initialize
+			}
+			ok := 0
+			if e.Args[2] == "nil" {
+				ok = 1
+			}
+			lastRead[f] = ""
+			toks = append(toks, fmt.Sprintf("O%d:%d", f, ok))
+		case "RL.Msg":
+			toks = append(toks, fmt.Sprintf("M%d", f))
+		case "RL.SendErr":
+			toks = append(toks, fmt.Sprintf("E%d", f))
+		}
+	}
+	tr := "-"
+	if len(toks) > 0 {
+		tr = strings.Join(toks, ";")
+	}
+	return "ftrace n=" + strconv.Itoa(len(ids)) + " " + tr, fmt.Sprintf("live=%d", len(ids)-len(exited))
 }
